@@ -55,6 +55,10 @@ func opLabels(e *ref.E) []string {
 		k := "op:" + x.Op
 		if x.Op == "bin" {
 			k = "op:" + x.S
+			if len(x.A) == 2 && x.A[1].Op == "lit" && len(x.A[1].Lit) >= 16 && strings.Contains("< <= > >=", x.S) && !seen["cmp_beyond_2^53"] {
+				seen["cmp_beyond_2^53"] = true
+				out = append(out, "cmp_beyond_2^53")
+			}
 		}
 		if !seen[k] {
 			seen[k] = true
